@@ -510,6 +510,8 @@ class Interp:
                     f = stubs[f]
             except TypeError:
                 pass
+        if stubs and isinstance(f, types.MethodType) and ("bound", f.__func__, id(f.__self__)) in stubs:
+            f = stubs[("bound", f.__func__, id(f.__self__))]
         if isinstance(f, BoundMethod):
             if isinstance(f.func, (types.FunctionType, IFunc)):
                 return self.call_function(f.func, [f.self_val] + list(args), kwargs, defcls=f.defcls)
